@@ -1092,6 +1092,8 @@ def bucket(case, o):
     if k == 'container':
         return 'container/%s/%s' % ('model' if case.get('model') else 'vc', case['span']['type'])
     if k == 'linker':
+        return 'linker/%s/%d-subs/%s' % (case['span']['type'], len(case['subs']), 'raise' if 'raise' in o else 'ok')
+    if k == 'linker-old':
         return 'linker/%d-subs/%s' % (len(case['subs']), 'raise' if 'raise' in o else 'ok')
     if k == 'symbols':
         rt = o.get('rt')
@@ -1362,7 +1364,8 @@ def gen(rng, tier):
             cases.append({'kind': 'container', 'span': spec, 'vars': vs, 'model': model})
     # linkers
     for _ in range(300 if quick else 2500):
-        spec = rng.choice([s for s in specs if s['type'] in ('range', 'list') and all(l[0] in ('i', 's') for l in span_labels(s))])
+        # every span type (since ee9fcdf linkers over ndarray / pandas spans can be constructed); NaN labels make the constructor refuse
+        spec = rng.choice(specs) if rng.random() < 0.7 else rng.choice([s for s in specs if s['type'] in ('range', 'list') and all(l[0] in ('i', 's') for l in span_labels(s))])
         n = span_len(spec)
         k = rng.choice([0, 1, 2, 2, 3])
         keys = rng.sample([['s', 'a'], ['s', 'b'], ['i', 1], ['i', 2], ['s', '_'], ['s', 'L'], ['s', 'zz']], k)
